@@ -74,3 +74,108 @@ REG.contract(
     note="leaving the context: commit exactly on a clean exit, rollback exactly when an exception is propagating; "
          "an error is never reported for a transaction whose commit hook completed",
 )
+
+
+# ----------------------------------------------------------------------------- the hook, for zone transactions
+# dns.zone.Transaction._end_transaction is the implementation behind the assumed hook above for plain, versioned and
+# B-tree zones.  The zone it talks to is a stub that records which of its three entry points was called (their real
+# counterparts in dns.versioned.Zone are under contract in contracts/versioned.py).
+
+
+class _ZoneStub:
+    def _end_read(self, txn):
+        raise NotImplementedError
+
+    def _end_write(self, txn):
+        raise NotImplementedError
+
+    def _commit_version(self, txn, version, origin):
+        raise NotImplementedError
+
+
+class _ManagerStub:
+    pass
+
+
+def _any_factory(version):  # stands for manager.immutable_version_factory / ImmutableVersion
+    raise NotImplementedError
+
+
+_P = "contracts.transaction."
+ZST, VERS = _P + "_ZoneStub", "dns.zone.WritableVersion"
+# ended_read / ended_write / committed: how often each entry point was called; committed_version: with which version
+REG.declare_heap_class(ZST, ended_read=T.int, ended_write=T.int, committed=T.int, committed_version=T.int, committed_origin=T.int,
+                       committed_made_from=T.int)
+# a version: the set of changed names (only its size matters), its origin, and (for an immutable copy) the identity of
+# the writable version it was made from
+_WV = T.obj(VERS, raw=True, changed=T.list_of(T.int), origin=T.int, made_from=T.int)
+_ZW = [(ZST, "ended_read"), (ZST, "ended_write"), (ZST, "committed"), (ZST, "committed_version"), (ZST, "committed_origin"),
+       (ZST, "committed_made_from")]
+_KEEP = lambda *fs: [f"self.{f} == old_self.{f}" for f in ("ended_read", "ended_write", "committed") if f not in fs]
+REG.contract(ZST + "._end_read", params={"self": T.ref(ZST)}, raises=[], modifies_heap=_ZW,
+             ensures=["self.ended_read == old_self.ended_read + 1"] + _KEEP("ended_read"), status="assumed", props=["C10", "C13"],
+             note="stub zone: a reader was unregistered (real counterpart: dns.versioned.Zone._end_read, under contract)")
+REG.contract(ZST + "._end_write", params={"self": T.ref(ZST)}, raises=[], modifies_heap=_ZW,
+             ensures=["self.ended_write == old_self.ended_write + 1"] + _KEEP("ended_write"), status="assumed", props=["C10", "C13"],
+             note="stub zone: the write permission was given back without publishing anything (real counterpart: _end_write)")
+REG.contract(ZST + "._commit_version", params={"self": T.ref(ZST), "txn": T.int, "version": _WV, "origin": T.int},
+             raises=[], modifies_heap=_ZW,
+             ensures=["self.committed == old_self.committed + 1", "self.committed_version == idof(version)",
+                      "self.committed_origin == origin",
+                      "self.committed_made_from == version.made_from"] + _KEEP("committed"),
+             status="assumed", props=["C10", "C13"],
+             note="stub zone: a version was published (real counterpart: _commit_version_unlocked, under contract)")
+
+
+def _factory_model(I, args, kwargs):
+    from pyvc.models import key_of
+    from pyvc.sym import SInt, SObj
+    import dns.zone
+
+    src = args[0]
+    return SObj(dns.zone.ImmutableVersion, {"made_from": SInt(key_of(I, src)), "origin": src.fields["origin"]}, label="immutable_version")
+
+
+REG.external(_any_factory, _factory_model, "immutable-version factory: returns a new version object made from the writable version it is given")
+
+import dns.zone as _dz  # noqa: E402
+
+_orig_resolve_len = None
+_ZTX = T.obj("dns.zone.Transaction", raw=True, zone=T.ref(ZST), version=_WV, read_only=T.bool, make_immutable=T.bool,
+             manager=T.obj(_P + "_ManagerStub", raw=True, immutable_version_factory=T.const(_any_factory)))
+_DOES_COMMIT = "((not self.read_only) and commit and len(self.version.changed) > 0)"
+_Z, _OZ = "self.zone", "snap(self.zone, old_self)"
+REG.contract(
+    "dns.zone.Transaction._end_transaction",
+    params={"self": _ZTX, "commit": T.bool},
+    modifies_heap=_ZW,
+    raises=[],
+    ensures=[
+        # a read transaction only unregisters itself
+        f"(not self.read_only) or ({_Z}.ended_read == {_OZ}.ended_read + 1 and {_Z}.committed == {_OZ}.committed and {_Z}.ended_write == {_OZ}.ended_write)",
+        # a write transaction publishes exactly when it is told to commit and something changed ...
+        f"(not {_DOES_COMMIT}) or ({_Z}.committed == {_OZ}.committed + 1 and {_Z}.ended_write == {_OZ}.ended_write and {_Z}.ended_read == {_OZ}.ended_read)",
+        # ... the version it built (made immutable through the factory when asked to), with that version's origin
+        f"(not ({_DOES_COMMIT} and not self.make_immutable)) or {_Z}.committed_version == idof(self.version)",
+        f"(not ({_DOES_COMMIT} and self.make_immutable)) or {_Z}.committed_made_from == idof(self.version)",
+        f"(not {_DOES_COMMIT}) or {_Z}.committed_origin == self.version.origin",
+        # otherwise (rollback, or a commit with nothing changed) nothing is published and the write permission is given back
+        f"self.read_only or {_DOES_COMMIT} or ({_Z}.ended_write == {_OZ}.ended_write + 1 and {_Z}.committed == {_OZ}.committed and {_Z}.ended_read == {_OZ}.ended_read)",
+    ],
+    props=["C10", "C13"],
+    note="the zone transaction's end hook: rollback never publishes, commit publishes exactly the version the transaction built "
+         "(and only if something changed), a reader only unregisters; this discharges the assumed hook contract for zone "
+         "transactions relative to the zone's three entry points",
+)
+
+# ---- the plain zone's three entry points (the versioned zone's are in contracts/versioned.py)
+_PZ = T.obj("dns.zone.Zone", raw=True, nodes=T.int, origin=T.opt(T.int))
+_PV = T.obj(VERS, raw=True, nodes=T.int, origin=T.int)
+REG.contract("dns.zone.Zone._commit_version", params={"self": _PZ, "txn": T.int, "version": _PV, "origin": T.int},
+             modifies={"self.nodes": None, "self.origin": T.opt(T.int)}, raises=[],
+             ensures=["self.nodes == version.nodes", "(self.origin == old_self.origin) if (old_self.origin is not None) else (self.origin == origin)"],
+             props=["C10", "C13"], note="plain zone commit: the version's node map becomes the zone's; the origin is set once")
+for _m in ("_end_read", "_end_write"):
+    REG.contract(f"dns.zone.Zone.{_m}", params={"self": _PZ, "txn": T.int}, raises=[],
+                 ensures=["self.nodes == old_self.nodes", "(self.origin is None) == (old_self.origin is None)"],
+                 props=["C10", "C13"], note="plain zone: ending a reader or rolling back a writer leaves the published node map untouched")
